@@ -16,7 +16,7 @@ from dataclasses import dataclass, field
 from typing_extensions import List, Set, Type
 
 from krrood.class_diagrams.utils import Role
-from krrood.entity_query_language.predicate import Symbol
+from krrood.entity_query_language.predicate import Predicate, Symbol
 from krrood.ontomatic.property_descriptor.mixins import HasInverseProperty, TransitiveProperty
 from krrood.ontomatic.property_descriptor.property_descriptor import PropertyDescriptor
 
@@ -206,6 +206,33 @@ class VPerson(Symbol):
         return hash(self.name)
 
 
+@dataclass(eq=False)
+class Stamp(Predicate):
+    """an instance of a predicate is a Symbol that the graph does not register when it is created: it gets its node
+    when a relation needs one"""
+    label: str
+
+    def __call__(self):
+        return True
+
+    def __repr__(self):
+        return f"Stamp({self.label})"
+
+
+@dataclass(eq=False)
+class Folder(Symbol):
+    name: str
+    stamps: List[Stamp] = field(default_factory=list)
+
+    def __repr__(self):
+        return f"Folder({self.name})"
+
+
+@dataclass
+class HasStamp(PropertyDescriptor):
+    pass
+
+
 @dataclass
 class Member(PropertyDescriptor, HasInverseProperty):
     @classmethod
@@ -308,10 +335,11 @@ Boss.employed_by = EmployedBy(Boss, "employed_by")
 Org.wholly_owned_by = WhollyOwnedBy(Org, "wholly_owned_by")
 Org.part_of = PartOf(Org, "part_of")
 Org.has_part = HasPart(Org, "has_part")
+Folder.stamps = HasStamp(Folder, "stamps")
 
 PERSON_CLASSES = {"Person": Person, "Employee": Employee, "Manager": Manager, "Volunteer": Volunteer,
                   "WorkingStudent": WorkingStudent}
 ORG_CLASSES = {"Org": Org, "Dept": Dept}
 ODD_CLASSES = {"Bag": Bag, "Crate": Crate}
 ALL_CLASSES = {**PERSON_CLASSES, **ORG_CLASSES, "SeasonalA": SeasonalA, "SeasonalB": SeasonalB, "Loose": Loose, "Chief": Chief, "ChiefF": ChiefF, "VOrg": VOrg, "VPerson": VPerson, "Unit": Unit,
-               "Visitor": Visitor, "Delegate": Delegate, "Chair": Chair, "Convener": Convener, "Boss": Boss}
+               "Visitor": Visitor, "Delegate": Delegate, "Chair": Chair, "Convener": Convener, "Boss": Boss, "Folder": Folder, "Stamp": Stamp}
